@@ -73,7 +73,11 @@ def _strategy(tier, var):
                 "spring": draw(gen.floats(0.0, 50.0, 32)), "mass": draw(gen.floats(0.5, 5.0, 32)),
                 "omega": draw(gen.floats(-2.0, 2.0, 32)),
                 # slow bodies: per-step marker displacements down to 1e-9 cells (creeping / nearly fixed bodies)
-                "slow": draw(st.sampled_from([1.0, 1.0, 1e-2, 1e-4, 1e-6]))}
+                "slow": draw(st.sampled_from([1.0, 1.0, 1e-2, 1e-4, 1e-6])),
+                # rolling checkpoints: this many earlier steps wrote the SAME file names before step k did (a fixed
+                # "latest" name, or the %04d index computed from a coarse time bucket as the examples do), through the same
+                # long-lived IO objects or through new ones
+                "rolling": draw(st.sampled_from([0, 0, 1, 2, 3])), "reuse_io": draw(st.booleans())}
 
     return case()
 
@@ -154,8 +158,15 @@ class Run:
         body_io.add_as_lagrangian_fields_for_io(lagrangian_grid=self._body_pos, lagrangian_grid_name="rigid_body", velocity=self._body_vel)
         return flow_io, body_io
 
-    def save(self, d, ctx):
-        flow_io, body_io = self.make_io()
+    def save(self, d, ctx, reuse=False):
+        if reuse and getattr(self, "_ios", None) is not None:
+            flow_io, body_io = self._ios
+            self._body_pos[...] = self.body.position_collection[: self.dim]
+            self._body_vel[...] = self.body.velocity_collection[: self.dim]
+        else:
+            flow_io, body_io = self.make_io()
+            if reuse:
+                self._ios = (flow_io, body_io)
         with ctx.repo_call("checkpoint save"):
             flow_io.save(h5_file_name=os.path.join(d, "sopht_0001.h5"), time=self.sim.time)
             body_io.save(h5_file_name=os.path.join(d, "forcing_grid_0001.h5"), time=self.inter.time)
@@ -209,12 +220,22 @@ def _body(case, ctx):
         A = Run(case, ctx)
         A.set_initial_fields()
         dt = A.choose_dt()
+        rolling = int(case.get("rolling", 0)) if len(ks) == 1 else 0
+        reuse = bool(case.get("reuse_io", False))
+        overwritten = 0
         for i in range(K + 1):
             if i in ks:
                 os.makedirs(os.path.join(tmp, str(i)), exist_ok=True)
-                A.save(os.path.join(tmp, str(i)), ctx)
+                A.save(os.path.join(tmp, str(i)), ctx, reuse=reuse and rolling > 0)
+            elif rolling and ks[0] - rolling <= i < ks[0]:
+                # an earlier checkpoint under the same file names, overwritten at step k
+                os.makedirs(os.path.join(tmp, str(ks[0])), exist_ok=True)
+                A.save(os.path.join(tmp, str(ks[0])), ctx, reuse=reuse)
+                overwritten += 1
             if i < K:
                 A.step(ctx)
+        if overwritten:
+            ctx.note(labels=["checkpoint_overwrote_earlier_file", "io_objects_reused" if reuse else "io_objects_fresh"])
         for k in ks:
             _resume_and_compare(case, ctx, A, dt, k, os.path.join(tmp, str(k)))
     finally:
